@@ -22,7 +22,7 @@ ASSUMPTIONS = [
     "copy.deepcopy is a structural copy without sharing (library contract in pyvc/libx_tools.py); _Option.__deepcopy__ itself is executed from source",
     "weak references to subscribers/receivers stay alive during one call unless the scenario builds a dead one (garbage collection is not modelled)",
     "contextlib.contextmanager semantics: the with-body runs at the generator's single yield, exceptions of the body are thrown in at the yield (pyvc/interp.py exec_with_genctx)",
-    "subscriber callbacks are scenario-provided contracts: they record (updated, observed values) and raise OptionsError on a symbolic condition; they do not themselves update options",
+    "subscriber callbacks are scenario-provided contracts: they record (updated, observed values) and raise OptionsError on a symbolic condition; only in scenario update.cascade a listener itself makes one nested update of another option",
     "T1 option tables have <= 3 options with typespecs from {int, str, bool, Optional[str], Optional[int], Sequence[str]} and help text ''",
     "ruamel.yaml (serialize/parse/load) is third-party: round trip is checked by T2 only, over the string pool listed in the evidence",
 ]
@@ -214,6 +214,10 @@ def _stub_l1(opts, updated):  # identity tokens for scenario-provided callbacks 
     raise AssertionError("stub")
 
 
+def _stub_l0(opts, updated):
+    raise AssertionError("stub")
+
+
 def _stub_l2(opts, updated):
     raise AssertionError("stub")
 
@@ -247,14 +251,31 @@ def _names(vc, updated):
 
 
 class Harness:
-    def __init__(self, vc, specs, l1_rejects, dead=False):
+    def __init__(self, vc, specs, l1_rejects, dead=False, cascade=None):
         """specs: [(name, typespec-name, default, value, is_set)]; dead: a subscription (to {a}) whose callback has been
-        garbage-collected sits between L1 and L2"""
+        garbage-collected sits between L1 and L2; cascade: a string v => a listener L0 on {a}, subscribed BEFORE L1, reacts to its
+        first notification with a nested update c=[v] of another option (a component adjusting a dependent option)"""
         self.vc = vc
         self.log = []
         self.l1_calls = 0
+        self.l0_calls = 0
+        self.nested = []
         self.raised = None
         h = self
+
+        def l0(v, opts, updated):
+            h.l0_calls += 1
+            h.log.append(("L0", _names(v, updated), snapshot(v, opts)))
+            if h.l0_calls == 1:
+                if v.mode == "native":
+                    try:
+                        opts.update(c=[cascade])
+                        h.nested.append(True)
+                    except Exception:
+                        h.nested.append(False)
+                else:
+                    h.nested.append(v.call(OM + ".update", opts, c=v.list([cascade])).ok)
+            return v.lift(None)
 
         def l1(v, opts, updated):
             h.l1_calls += 1
@@ -282,7 +303,9 @@ class Harness:
                 m.add_option(name, _ts(ts), default, "")
                 if is_set:
                     m._options[name].value = value
-            self.keep = [lambda o, u: l1(vc, o, u), lambda o, u: l2(vc, o, u), lambda exc: err(vc, exc)]
+            self.keep = [lambda o, u: l1(vc, o, u), lambda o, u: l2(vc, o, u), lambda exc: err(vc, exc), lambda o, u: l0(vc, o, u)]
+            if cascade is not None:
+                m.subscribe(self.keep[3], ["a"])
             m.subscribe(self.keep[0], ["a", "b"])
             if dead:
                 gone = lambda o, u: None
@@ -295,6 +318,7 @@ class Harness:
         import weakref
         from mitmproxy.utils import signals
         vc.summary("props.C44:_stub_l1", l1)
+        vc.summary("props.C44:_stub_l0", l0)
         vc.summary("props.C44:_stub_l2", l2)
         vc.summary("props.C44:_stub_err", err)
         m = SObj(_cls(OM), {})
@@ -303,7 +327,8 @@ class Harness:
         m.fields["deferred"] = SDict()
         m.fields["changed"] = SObj(signals._SyncSignal, {"receivers": SList([ref(vc.bound(m, OM + "._notify_subscribers"))])})
         m.fields["errored"] = SObj(signals._SyncSignal, {"receivers": SList([ref(SConst(_stub_err))])})
-        m.fields["_subscriptions"] = SList([STuple([ref(SConst(_stub_l1)), SSet([SStr("a"), SStr("b")])])]
+        m.fields["_subscriptions"] = SList(([STuple([ref(SConst(_stub_l0)), SSet([SStr("a")])])] if cascade is not None else [])
+                                           + [STuple([ref(SConst(_stub_l1)), SSet([SStr("a"), SStr("b")])])]
                                            + ([STuple([ref(NONE), SSet([SStr("a")])])] if dead else [])
                                            + [STuple([ref(SConst(_stub_l2)), SSet([SStr("c")])])])
         m.fields["_options"] = options
@@ -346,6 +371,45 @@ def s_update(vc):
 @scenario("update_defer", functions=[OM + ".update_defer"] + _UPD_FUNCS)
 def s_update_defer(vc):
     _update_contract(vc, "update_defer")
+
+
+@scenario("update.cascade", functions=[OM + ".update"] + _UPD_FUNCS)
+def s_update_cascade(vc):
+    """A listener reacts to the update by updating ANOTHER option (nested, accepted); a later listener may then reject the outer
+    update. Rejected => every option, including the cascaded one, is back at its previous value and the listeners of the updated
+    options last see exactly that state. Accepted => both changes stand and the later listener saw both."""
+    keys = vc.case("keys", [("a",), ("b", "a")])
+    l1_rejects = vc.sym_bool("l1_rejects")
+    casc = vc.sym_str("c_cascaded")
+    h = Harness(vc, _std_specs(vc), l1_rejects, cascade=casc)
+    mgr = h.mgr
+    new = {k: (vc.sym_int("a_new") if k == "a" else vc.sym_str("b_new")) for k in keys}
+    old = snapshot(vc, mgr)
+    out = vc.call(OM + ".update", mgr, **new)
+    post = snapshot(vc, mgr)
+    vc.ensure("cascade.nested_update_accepted", h.nested == [True])
+    kinds = [e[0] for e in h.log]
+    if h.raised is not None:
+        vc.ensure("cascade.reject.raises_the_listeners_error", (not out.ok) and issubclass(out.raised_type(), _cls("mitmproxy.exceptions:OptionsError")))
+        vc.ensure("cascade.reject.all_restored_including_the_cascaded_option", _all_same(vc, post, old))
+        vc.ensure("cascade.reject.signal_order", kinds == ["L0", "L2", "L1", "errored", "L0", "L1"])
+        last = {n: [e for e in h.log if e[0] == n][-1] for n in ("L0", "L1") if n in kinds}
+        for n, e in sorted(last.items()):
+            vc.ensure(f"cascade.reject.{n}_last_view_is_restored_state", _all_same(vc, e[2], old))
+        vc.ensure("cascade.reject.final_view_is_a_state_that_exists", And(*[_all_same(vc, e[2], post) for e in last.values()]) if last else True)
+        return
+    vc.ensure("cascade.accept.total", out.ok)
+    if not out.ok:
+        return
+    for k in keys:
+        vc.ensure(f"cascade.accept.assigned[{k}]", same(vc, post[k], new[k]))
+    vc.ensure("cascade.accept.cascaded_option_assigned", same(vc, post["c"], [casc]))
+    if "b" not in keys:
+        vc.ensure("cascade.accept.frame[b]", same(vc, post["b"], old["b"]))
+    vc.ensure("cascade.accept.signal_order", kinds == ["L0", "L2", "L1"])
+    if kinds == ["L0", "L2", "L1"]:
+        vc.ensure("cascade.accept.later_listener_sees_both_changes", _all_same(vc, h.log[2][2], post))
+        vc.ensure("cascade.accept.cascaded_listener_told_its_option", h.log[1][1] == ["c"])
 
 
 def _update_contract(vc, method):
@@ -539,7 +603,9 @@ def _t2_manager():
     from collections import abc
     from mitmproxy import optmanager
     m = optmanager.OptManager()
-    spec = {"f": (bool, False), "s": (str, "dflt"), "i": (int, 0), "os": (typing.Optional[str], None), "oi": (typing.Optional[int], None), "q": (abc.Sequence[str], [])}
+    spec = {"f": (bool, False), "s": (str, "dflt"), "i": (int, 0), "os": (typing.Optional[str], None), "oi": (typing.Optional[int], None), "q": (abc.Sequence[str], []),
+            # optional options whose DEFAULT is not None: None is then a non-default value that must survive a save/load
+            "osd": (typing.Optional[str], "dflt-os"), "oid": (typing.Optional[int], 8080)}
     for k, (ts, d) in spec.items():
         m.add_option(k, ts, d, "")
     return m, spec
@@ -548,10 +614,12 @@ def _t2_manager():
 T2_OPS = [
     # (method, kwargs, finding class of the op or "")
     ("update", {"i": 5}, ""), ("update", {"i": 7}, ""), ("update", {"i": "x"}, ""), ("update", {"s": "v", "i": 6}, ""),
-    ("update", {"s": "bad", "i": 1}, ""), ("update", {"i": 9, "s": 3}, "KF-C44-1"), ("update", {"q": ["a", "b"], "f": True}, ""),
-    ("update", {"f": True, "q": "a"}, "KF-C44-1"), ("update", {"os": "t", "oi": 4}, ""), ("update", {"os": None, "oi": None}, ""),
-    ("update", {"oi": "4"}, ""), ("update", {"i": 2, "nope": 1}, "KF-C44-2"), ("update", {"nope": 1}, ""),
+    ("update", {"s": "bad", "i": 1}, ""), ("update", {"i": 9, "s": 3}, ""), ("update", {"q": ["a", "b"], "f": True}, ""),
+    ("update", {"f": True, "q": "a"}, ""), ("update", {"os": "t", "oi": 4}, ""), ("update", {"os": None, "oi": None}, ""),
+    ("update", {"oi": "4"}, ""), ("update", {"i": 2, "nope": 1}, ""), ("update", {"nope": 1}, ""),
     ("update_defer", {"later": 5, "i": 3}, ""), ("update_defer", {"later": "str", "s": "bad"}, ""), ("add_later", {}, ""), ("reset_s", {}, ""),
+    # f is watched by a cascading listener (sets oid=99 in a nested update) that runs BEFORE the rejecting listener on {i, s}
+    ("update", {"f": True, "i": 7}, ""), ("update", {"f": True, "i": 8}, ""), ("update", {"f": False}, ""),
 ]
 
 
@@ -579,6 +647,11 @@ def _t2_sequences(b, tier, seed):
             if snap.get("i") == 7 or snap.get("s") == "bad":
                 raise exceptions.OptionsError("rejected by listener")
 
+        def cascader(opts, updated):
+            if "f" in updated and opts.f and opts.oid != 99:
+                opts.update(oid=99)
+
+        m.subscribe(cascader, ["f"])
         m.subscribe(listener, ["i", "s"])
         b.case(tuple(seq), nontrivial=len(seq) > 1)
         for step, oi in enumerate(seq):
@@ -596,8 +669,10 @@ def _t2_sequences(b, tier, seed):
                 elif not all(_t2_conforms(v, spec[k][0]) for k, v in known.items()):
                     exp_exc = TypeError
                 elif known and (set(known) & {"i", "s"}) and (cand["i"] == 7 or cand["s"] == "bad"):
-                    exp_exc = exceptions.OptionsError
+                    exp_exc = exceptions.OptionsError       # whatever a listener cascaded before the rejection is rolled back too
                 else:
+                    if "f" in known and cand["f"]:
+                        cand["oid"] = 99
                     exp_model = cand
                     exp_names = sorted(known) if set(known) & {"i", "s"} else None
                     if method == "update_defer":
@@ -659,7 +734,7 @@ def _t2_roundtrip(b, tier, seed):
     strings = list(T2_STRINGS)
     if tier != "quick":
         strings += [a + c for a, c in itertools.product(["a", " ", "\n", "'", '"', ":", "#", "-", "\x85"], repeat=2)]
-    others = [dict(f=True, i=-5, oi=0), dict(f=True, i=2 ** 70, oi=None), dict(i=0, oi=-1)]
+    others = [dict(f=True, i=-5, oi=0, osd=None, oid=None), dict(f=True, i=2 ** 70, oi=None, osd="x", oid=None), dict(i=0, oi=-1, osd=None, oid=7)]
     for n, val in enumerate(strings):
         cls = "KF-C44-3" if "\x85" in val else ""
         chk = lambda name: name + ("/" + cls if cls else "")
@@ -696,12 +771,12 @@ def _t2_roundtrip(b, tier, seed):
 
 def bounded(tier, seed):
     b = Bounded()
-    b.rule = ("(1) every sequence (quick: sampled 2500 of length <= 3; thorough: all of length <= 4) over 17 operations on a real OptManager with one "
-              "option of each supported type, a listener on {i, s} that rejects i == 7 / s == 'bad', type-incorrect values at first and later keys, "
+    b.rule = ("(1) every sequence (quick: sampled 2500 of length <= 3; thorough: length <= 4, a seeded sample of 100000 of the 168420) over 20 operations on a real OptManager with one "
+              "option of each supported type, a listener on {i, s} that rejects i == 7 / s == 'bad', a cascading listener on f (nested update of another option) subscribed before it, type-incorrect values at first and later keys, "
               "unknown keys, deferred options that are added later; after every step the real state, the listener's last view, the notification "
               "names and the exception are compared with a reference model written from the statement. (2) every string of the pool (YAML words, "
               "indicators, quotes, newlines, control and unicode line-break characters, long lines) as str / Optional[str] / Sequence[str] value "
-              "plus int/bool/Optional[int] values: serialize->load, save->load_paths on a fresh file and on an existing file with stale and unknown "
+              "plus int/bool/Optional[int] values and None for optional options whose default is not None: serialize->load, save->load_paths on a fresh file and on an existing file with stale and unknown "
               "keys; every non-default value must be reproduced. distinct = distinct sequence / (string, path); non-trivial = length > 1 / all")
     b.bound = f"sequences <= {3 if tier == 'quick' else 4} over {len(T2_OPS)} operations; {len(T2_STRINGS)} strings (thorough: + all pairs over 9 critical characters)"
     _t2_sequences(b, tier, seed)
